@@ -49,6 +49,16 @@ def default_harnesses(d, base):
         out.append("    #[kani::proof]\n    #[kani::should_panic]\n    pub fn %s_invalid() {\n        %s\n    }\n" % (base, "\n        ".join(bb)))
         hs.append(H(base + "_invalid", "main", dict(d.describe(), default="symbolic, assumed invalid"), expect_panic=True,
                     unreachable=["MARKER default() returned"]))
+        # every call: a first call with a valid default must not exempt later calls from validation (the default expression is
+        # evaluated per call; here it reads a static that changes between the calls)
+        cc = [d.setup(), "let d1: %s = kani::any(); unsafe { DFLT = d1; }" % ty, "let s1: %s = %s;" % (ty, d.san_ref("d1")), "kani::assume(%s);" % d.valid_expr("s1"),
+              "let first = <%s as ::core::default::Default>::default().into_inner();" % d.name, "assert!(%s, \"Default differs from try_new(default expr)\");" % d.eq("first", "s1"),
+              "let d2: %s = kani::any(); unsafe { DFLT = d2; }" % ty, "let s2: %s = %s;" % (ty, d.san_ref("d2")), "kani::assume(!(%s));" % d.valid_expr("s2"),
+              "let got = <%s as ::core::default::Default>::default();" % d.name,
+              "kani::cover!(true, \"MARKER default() returned although the default is invalid\");"]
+        out.append("    #[kani::proof]\n    #[kani::should_panic]\n    pub fn %s_second_call_invalid() {\n        %s\n    }\n" % (base, "\n        ".join(cc)))
+        hs.append(H(base + "_second_call_invalid", "main", dict(d.describe(), default="first call: symbolic valid default (returns it); second call: symbolic invalid default"),
+                    expect_panic=True, unreachable=["MARKER default() returned"]))
     else:
         a = [setup, "let got = <%s as ::core::default::Default>::default().into_inner();" % d.name, "kani::cover!(true);",
              "assert!(%s, \"Default differs from new(default expr)\");" % d.eq("got", "s")]
